@@ -273,7 +273,9 @@ def interpolation_contract(col, g, k):
                             return v**n
                         if m == 1:
                             return n * v ** (n - 1) if n >= 1 else 0 * v
-                        return n * (n - 1) * v ** (n - 2) if n >= 2 else 0 * v
+                        if m == 2:
+                            return n * (n - 1) * v ** (n - 2) if n >= 2 else 0 * v
+                        return n * (n - 1) * (n - 2) * v ** (n - 3) if n >= 3 else 0 * v
                     out += cx[a, b, c] * d(x, a, nu[0]) * d(y, b, nu[1]) * d(z, c, nu[2])
         return out
     lo = origin + 2.2 * np.diag(axes)
@@ -300,6 +302,19 @@ def interpolation_contract(col, g, k):
         want = np.exp(0.2 * poly(q, maxdeg=1)) * 0.2 * poly(q, (1, 0, 0), maxdeg=1)
         if not np.allclose(got, want, rtol=1e-7, atol=1e-9):
             return False, "derivative through the logarithmic variant is wrong"
+        # f = exp(s p), p of degree three in each variable: value and the derivatives of order 1..3 in each single variable
+        s_ = 0.15
+        pos3 = np.exp(s_ * poly(grid.points))
+        f0 = np.exp(s_ * poly(q))
+        for axis in range(3):
+            p1, p2, p3 = (s_ * poly(q, tuple(m if c == axis else 0 for c in range(3))) for m in (1, 2, 3))
+            wants = {0: f0, 1: f0 * p1, 2: f0 * (p2 + p1**2), 3: f0 * (p3 + 3 * p1 * p2 + p1**3)}
+            for order in (0, 1, 2, 3):
+                nu = [0, 0, 0]
+                nu[axis] = order
+                got = grid.interpolate(q, pos3, use_log=True, nu_x=nu[0], nu_y=nu[1], nu_z=nu[2])
+                if not np.allclose(got, wants[order], rtol=1e-6, atol=1e-8):
+                    return False, f"logarithmic variant, derivative orders {tuple(nu)} of exp(cubic): {got[:2]} vs {wants[order][:2]}"
         return True, None
     col.check(f"interpolate:{'x'.join(map(str, shape))}", chk, inputs=inp, sample={"shape": shape.tolist()})
 
@@ -308,7 +323,7 @@ def run(tier, seed, *rest):
     col = Collector("real Tensor1DGrids/UniformGrid on random shapes 2..6 per axis (2D and 3D), skewed/negative axes, all five weight schemes: "
                     "index bijection, node layout, weight products, weight-sum bound, molecule boxes (incl. asymmetric charge), nearest node by "
                     "brute force, cube write/read round trip in both unit conventions, tri-cubic polynomial reproduction with derivatives, "
-                    "log and linear variants; distinct = (contract, dimension, scheme/variant)")
+                    "log variant on exp(cubic) with derivatives of order <= 3 in each single variable, linear variant; distinct = (contract, dimension, scheme/variant)")
     g = rng(seed, "C13")
     reps = 3 if tier == "quick" else 20
     with tempfile.TemporaryDirectory() as tmp:
@@ -342,6 +357,9 @@ def replay(req):
             if what in (None, "uniform"):
                 for scheme in ([spec["scheme"]] if spec.get("scheme") else ["Rectangle", "Trapezoid", "Alternative"]):
                     uniform_contract(col, g, dim, scheme)
+    if what == "interpolate-log":
+        for k in range(3):
+            interpolation_contract(col, g, k)
     fails = [f for f in col.failures if not f["case_id"].endswith(":known")]
     if fails:
         f = fails[0]
